@@ -187,7 +187,7 @@ theorem step_set (run : ProbeRunner) {s : St} {fl : List Nat} (H : HInv s fl)
         obtain ⟨cv, hcv, rfl⟩ := List.mem_map.mp hc
         exact (H.comps_iff hm cv.1).mpr (hh cv hcv)
     by_cases hv : ∀ cv ∈ vals, cv.1 ∈ keys en.comps
-    · obtain ⟨w', hop, post⟩ := opSet_rel_spec run H.tinv H.noObs h2 hnf ha ok.comps (hiff.mpr hv) vals
+    · obtain ⟨w', hop, post⟩ := opSet_rel_spec run H.tinv H.noObs h2 hnf ha (Pool.lt_of_slot hsl) ok.comps (hiff.mpr hv) vals
       have hex : exec run s.w (.set e vals) = .ok none w' := by simp only [exec, hop]
       have hstep : step run s (.set e vals) =
           ⟨w', s.issued, ⟨upd s.ss.ents e fun en => { en with comps := writeComps s.ss.zst vals en.comps },
@@ -213,7 +213,7 @@ theorem step_set (run : ProbeRunner) {s : St} {fl : List Nat} (H : HInv s fl)
           relNodup := ok.relNodup
           relKeys := by intro c; rw [Refine.keys_writeComps]; exact ok.relKeys c
           tgts := fun r hr => by rw [post.targets]; exact ok.tgts r hr }
-    · have hop := opSet_rel_missing run H.tinv h2 hnf ha ok.comps (ids := keys vals)
+    · have hop := opSet_rel_missing run H.tinv h2 hnf ha (Pool.lt_of_slot hsl) ok.comps (ids := keys vals)
         (fun hh => hv (hiff.mp hh)) vals
       exact stepGoal_rejected H hg (k := .missing) (by simp only [exec, hop])
         (by
@@ -240,8 +240,8 @@ theorem step_del (run : ProbeRunner) {s : St} {fl : List Nat} (H : HInv s fl)
   | true =>
     obtain ⟨en, hf, hm⟩ := H.find_of_alive hi ha
     obtain ⟨_, _, h2, hnf, _, hsl⟩ := H.live_facts hm
-    obtain ⟨w', hop, post⟩ := opRemoveEntity_rel_spec run H.tinv H.unlocked H.noObs h2 hnf ha hfew hent
-    have more := opRemoveEntity_rel_more run H.tinv H.unlocked H.noObs h2 hnf ha hfew hent hop
+    obtain ⟨w', hop, post⟩ := opRemoveEntity_rel_spec run H.tinv H.unlocked H.noObs h2 hnf ha (Pool.lt_of_slot hsl) hfew hent
+    have more := opRemoveEntity_rel_more run H.tinv H.unlocked H.noObs h2 hnf ha (Pool.lt_of_slot hsl) hfew hent hop
     have hex : exec run s.w (.del e) = .ok none w' := by simp only [exec, hop]
     have hstep : step run s (.del e) =
         ⟨w', s.issued, ⟨detach e (del s.ss.ents e), s.ss.zst, s.ss.isRel⟩⟩ := by
@@ -423,7 +423,8 @@ theorem step_new (run : ProbeRunner) {s : St} {fl : List Nat} (H : HInv s fl)
   have hok : NewOK s.ss ids rels := ⟨hnd, hreg, ⟨hrnd, hrin, hrall⟩, hv⟩
   obtain ⟨e, w', hop⟩ := opNewEntity_rel_total run p H.tinv H.unlocked H.noObs (vals := vals) hnd hreg'
     hrnd hin hrc (fun c hc hr => hrall c hc (by rw [H.rget]; exact hr)) (H.targets_alive hv)
-  have post := opNewEntity_rel_spec run p H.tinv H.unlocked H.noObs hreg' hrnd hin hrc hfew hent hop
+  have post := opNewEntity_rel_spec run p H.tinv H.unlocked H.noObs hreg' hrnd hin hrc
+    (H.tgts_in (relsExpr_iff.mp hx).1) hfew hent hop
   have more := opNewEntity_rel_more run p H.tinv H.unlocked H.noObs hreg' hrnd hin hfew hent hop
   have he : e = (s.w.pool.get).2 := post.ent
   subst he
@@ -521,7 +522,7 @@ theorem step_add (run : ProbeRunner) {s : St} {fl : List Nat} (H : HInv s fl)
     obtain ⟨_, _, h2, hnf, _, hsl⟩ := H.live_facts hm
     have ok := H.ok e en hm
     have hmask : ∀ (c : Comp), (s.w.maskOf e).get c = true ↔ c ∈ keys en.comps := fun c => by
-      rw [H.tinv.mask_iff_comps h2 hnf ha ok.comps c, H.comps_iff hm c]
+      rw [H.tinv.mask_iff_comps h2 hnf ha (Pool.lt_of_slot hsl) ok.comps c, H.comps_iff hm c]
     have hrej : ∀ {k : PanicKind}, opAdd run p e ids vals rels s.w = .panic k s.w →
         ¬ AddOK s.ss en ids rels → StepGoal run s (.add p e ids vals rels) := by
       intro k hop hn
@@ -560,13 +561,13 @@ theorem step_add (run : ProbeRunner) {s : St} {fl : List Nat} (H : HInv s fl)
       cases hgc : (s.w.maskOf e).get c with
       | false => rfl
       | true => exact absurd ((hmask c).mp hgc) (hall c hc).2
-    obtain ⟨w', hop⟩ := opAdd_rel_total run p H.tinv H.unlocked H.noObs h2 hnf ha (vals := vals)
+    obtain ⟨w', hop⟩ := opAdd_rel_total run p H.tinv H.unlocked H.noObs h2 hnf ha (Pool.lt_of_slot hsl) (vals := vals)
       hne hnd hreg' hnew hrnd hin hrc (fun c hc hr => hrall c hc (by rw [H.rget]; exact hr))
       (H.targets_alive hv)
-    have post := opAdd_rel_spec run p H.tinv H.unlocked H.noObs h2 hnf ha hreg' hrnd hin hrc hfew
-      hent hop
-    have more := opAdd_rel_more run p H.tinv H.unlocked H.noObs h2 hnf ha hreg' hrnd hin hrc hfew
-      hent hop
+    have post := opAdd_rel_spec run p H.tinv H.unlocked H.noObs h2 hnf ha (Pool.lt_of_slot hsl) hreg'
+      hrnd hin hrc (H.tgts_in (relsExpr_iff.mp hx).1) hfew hent hop
+    have more := opAdd_rel_more run p H.tinv H.unlocked H.noObs h2 hnf ha (Pool.lt_of_slot hsl) hreg'
+      hrnd hin hrc (H.tgts_in (relsExpr_iff.mp hx).1) hfew hent hop
     have hex : exec run s.w (.add p e ids vals rels) = .ok none w' := by simp only [exec, hop]
     have hstep : step run s (.add p e ids vals rels) =
         ⟨w', s.issued, ⟨upd s.ss.ents e fun en =>
@@ -676,10 +677,10 @@ theorem step_rem (run : ProbeRunner) {s : St} {fl : List Nat} (H : HInv s fl)
     obtain ⟨_, _, h2, hnf, _, hsl⟩ := H.live_facts hm
     have ok := H.ok e en hm
     have hmask : ∀ (c : Comp), (s.w.maskOf e).get c = true ↔ c ∈ keys en.comps := fun c => by
-      rw [H.tinv.mask_iff_comps h2 hnf ha ok.comps c, H.comps_iff hm c]
+      rw [H.tinv.mask_iff_comps h2 hnf ha (Pool.lt_of_slot hsl) ok.comps c, H.comps_iff hm c]
     by_cases hv : ids ≠ [] ∧ ids.Nodup ∧ ∀ c ∈ ids, c ∈ keys en.comps
     · obtain ⟨hne, hnd, hall⟩ := hv
-      obtain ⟨w', hop, post⟩ := opRemove_rel_spec run p H.tinv H.unlocked H.noObs h2 hnf ha hne hnd
+      obtain ⟨w', hop, post⟩ := opRemove_rel_spec run p H.tinv H.unlocked H.noObs h2 hnf ha (Pool.lt_of_slot hsl) hne hnd
         (fun c hc => (hmask c).mpr (hall c hc)) hfew hent
       have hex : exec run s.w (.rem p e ids) = .ok none w' := by simp only [exec, hop]
       have hstep : step run s (.rem p e ids) =
@@ -807,7 +808,7 @@ theorem step_setrel (run : ProbeRunner) {s : St} {fl : List Nat} (H : HInv s fl)
         cases ht : targetOf s.w e.id r.comp with
         | none => exact absurd ⟨r, hr, ht⟩ hh
         | some x => rfl
-      obtain ⟨k, hcore⟩ := setRelationsCore_missing run H.tinv H.unlocked h2 hnf ha hemp hbad
+      obtain ⟨k, hcore⟩ := setRelationsCore_missing run H.tinv H.unlocked h2 hnf ha (Pool.lt_of_slot hsl) hemp hbad
       obtain ⟨k', hop⟩ := opSetRelations_panic run p e (rels.map (·.comp)) rels s.w hcore
       exact hrej hop (fun hp => hhas hp.2.2.1)
     have hrel : ∀ (r : RelID), r ∈ rels → s.w.isRelComp r.comp = true ∧ r.comp < 256 := by
@@ -819,16 +820,16 @@ theorem step_setrel (run : ProbeRunner) {s : St} {fl : List Nat} (H : HInv s fl)
     by_cases hv : TargetsValid s.ss.ents rels
     case neg =>
       have hd := dead_of_invalid' H hx hv
-      obtain ⟨k, hcore⟩ := setRelationsCore_deadTarget run H.tinv H.unlocked h2 hnf ha hemp hrnd
+      obtain ⟨k, hcore⟩ := setRelationsCore_deadTarget run H.tinv H.unlocked h2 hnf ha (Pool.lt_of_slot hsl) hemp hrnd
         hhas' hd
       obtain ⟨k', hop⟩ := opSetRelations_panic run p e (rels.map (·.comp)) rels s.w hcore
       exact hrej hop (fun hp => hv hp.2.2.2)
     have hok : SetRelOK s.ss en rels := ⟨hne, hrnd, hhas, hv⟩
-    obtain ⟨w', hop⟩ := opSetRelations_total run p H.tinv H.unlocked H.noObs h2 hnf ha hemp hrnd hhas'
+    obtain ⟨w', hop⟩ := opSetRelations_total run p H.tinv H.unlocked H.noObs h2 hnf ha (Pool.lt_of_slot hsl) hemp hrnd hhas'
       (H.targets_alive hv) hrel
-    have post := opSetRelations_spec run p H.tinv H.unlocked H.noObs h2 hnf ha hemp hrnd hhas' hfew
-      hent hop
-    have more := opSetRelations_more run p H.tinv H.unlocked H.noObs h2 hnf ha hemp hrnd hhas' hop
+    have post := opSetRelations_spec run p H.tinv H.unlocked H.noObs h2 hnf ha (Pool.lt_of_slot hsl)
+      hemp hrnd hhas' (H.tgts_in hx) hfew hent hop
+    have more := opSetRelations_more run p H.tinv H.unlocked H.noObs h2 hnf ha (Pool.lt_of_slot hsl) hemp hrnd hhas' hop
     have hex : exec run s.w (.setrel p e rels) = .ok none w' := by simp only [exec, hop]
     have hstep : step run s (.setrel p e rels) =
         ⟨w', s.issued, ⟨upd s.ss.ents e fun en => { en with rels := setRels en.rels rels },
